@@ -18,6 +18,11 @@ CLAIMED = {
    note="Trusted: the memtable model in props/c13.rs, vm-memory's GuestMemory read/write as the observation channel, the double barrier for sampling the queue's descriptor-table address. Unsorted/overlapping SET_MEM_TABLE may fail or succeed; probes with overlapping user ranges are skipped; failing application update_memory callbacks are not injected.",
    technique="model-based (stateful) property testing with proptest histories vs. memory-table reference model",
    ref="DESIGN.md section 3, C13"),
+ "C17": dict(level="exploration",
+   text="Every queues-per-thread configuration with num_queues<=4 and <=2 worker masks (quick; <=3 masks thorough), each mask any value below 2^(num_queues+2), is built as a real daemon and every queue is kicked once (exhaustive over that finite sub-space), plus sampled configurations up to 6 queues x 3 threads; owner thread, event id (rank), ring-slice length and ring identity (size 2^(q+1)) are compared with the first-principles formula, other workers must stay silent (double barrier on every worker), dropping the daemon must terminate the workers through the exit event. Custom listener ids over the 64-bit range must be delivered exactly or refused.",
+   note="Trusted: the double barrier, the first-principles owner/rank formula in props/c17.rs. Queues in no mask: only silence is checked. Listener ids that cannot be delivered may be refused (acceptance creates the obligation). A hung teardown is diagnosed after 10 s with the worker threads' states and ends the run as a violation.",
+   technique="exhaustive configuration enumeration + proptest sampling vs. first-principles routing oracle",
+   ref="DESIGN.md section 3, C17"),
  "C20": dict(level="exploration",
    text="Exhaustive enumeration of a boundary lattice per message type (about 9.5 million bit patterns, complete for the lattice) plus random 64-bit patterns, each judged in both directions against an independent predicate written from the property text in u128 arithmetic. Validators are pure functions of a few integer fields whose rules only have boundaries at the lattice points, so lattice-exhaustive + random search is the right level; it is not a proof over all 2^k patterns.",
    note="Trusted: refpred.rs (hand-written from the property/spec), the verif-hooks accessors that expose the private header validators. Bit patterns the rules leave open (range ending exactly at 2^64, padding word of the single-region body, inflight mmap_size==0) are accepted either way and counted as spec_silent.",
